@@ -1444,6 +1444,18 @@ class Interp:
 
     def _target_for_fullname(self, full: str, kind: str, call, fr, argtypes) -> list[Target]:
         p = self.prog
+        if full.endswith("?") and full.startswith(PKG + "."):
+            # the type checker found no such member on a repository class (one arm of a union, typically): when the
+            # class - all repository classes of its MRO, no external base but object - has neither a method nor an
+            # attribute of that name, the call raises AttributeError for an object of that class
+            owner, _, attr = full[:-1].rpartition(".")
+            d = p.lookup_fullname(owner)
+            if d is not None and d.kind == "class":
+                c = d.obj
+                exts = [b for b in c.external_bases() if b not in ("builtins.object", "object")]
+                stored = any(isinstance(x, ast.Attribute) and x.attr == attr and isinstance(x.ctx, ast.Store) for k in c.repo_mro() for x in ast.walk(k.node))
+                if not exts and c.find_method(attr) is None and c.find_attr(attr) is None and not stored and not c.find_method("__getattr__") and not c.find_method("__getattribute__"):
+                    return [Target("noattr", fullname=full[:-1], cls=c)]
         if full.endswith("?") or full.startswith("<Any>"):
             return [Target("unknown", note=f"callee {full} not typed")]
         if full.startswith(PKG + "."):
